@@ -461,6 +461,11 @@ def run(prog, check):
     from ._common import exogenous_applied
     pf_, okx_, whyx_ = exogenous_applied(prog)
     check.saw(pf_)
+    from ._common import registration_order_kept
+    for rf_o, c_o, ok_o, why_o in registration_order_kept(prog, 'Exogenous'):
+        check.saw(rf_o)
+        check.ob('C10.R8', '%s::registrations-in-call-order(%s)' % (rf_o.key, c_o.func.attr), ok_o, '%s:%d' % (rf_o.module.rel, c_o.lineno), why_o,
+                 'AddExogenous called twice for one variable')
     check.ob('C10.R8', '%s::exogenous-entries-applied' % pf_.key, okx_, pf_.where, whyx_,
              'AddExogenous / SetExogenous called twice for one variable: the second path is the one to be used')
     # ---- R4 (cont.): the stated value reaches the (0) row as the number supplied --------------------------------
@@ -469,6 +474,13 @@ def run(prog, check):
         check.saw(f_)
         check.ob('C10.R4', '%s::initial-value-text-exact(%s)' % (f_.key, where_.rsplit(':', 1)[0]), ok_, where_, why_,
                  'an initial condition with more than a few decimals (80/3, 1e-7): the k=0 value must be that number')
+    # horizon+1 values per variable, the k=0 value the stated one: still so after the results were read (no accessor cuts a stored
+    # series in place; alias analysis shared with C16.R2)
+    from .C16 import discover_accessors, check_accessor, Summaries
+    acc_ = discover_accessors(prog)
+    summ_ = Summaries(prog)
+    for f_acc in acc_['series']:
+        check_accessor(prog, check, f_acc, 'series', summ_, pid_rules=(None, 'C10.R1'))
     check.floor('C10.R8', 1)
     check.floor('C10.R7', 2)
     check.floor('C10.R1', 6)
